@@ -7,3 +7,11 @@ package contextualizers
 
 //@ func (*genericContextualizer).Execute
 //@   props C10
+
+//@ func (*genericContextualizer).calculateCacheKey
+//@   props C11
+//@   nomaprange Write
+//@   ensures ehash.n == old(ehash.n) + 1 && shash.n == old(shash.n) + 1 && shash.arg0[old(shash.n)] == sub
+//@   ensures hw.n >= old(hw.n) + 7
+//@   ensures hw.arg1[old(hw.n)] == ehash.ret0[old(ehash.n)] && hw.arg1[old(hw.n) + 1] == bytesOf(old(h.id)) && hw.arg1[old(hw.n) + 4] == bytesOf(payload)
+//@   ensures hw.arg1[old(hw.n) + 6] == shash.ret0[old(shash.n)]
